@@ -92,7 +92,8 @@ pub fn check_hash(c: &HashCase, st: &mut Stats) -> Result<(), Fail> {
         }
     }
     // TCP: sender address
-    let (ha, hb) = (huginn_net_tcp::packet_hash::hash_source_ip(&fa) % n, huginn_net_tcp::packet_hash::hash_source_ip(&fb) % n);
+    // the TCP hasher returns a hash that the pool reduces to an index on its own: equal hashes are equal workers under any reduction
+    let (ha, hb) = (huginn_net_tcp::packet_hash::hash_source_ip(&fa), huginn_net_tcp::packet_hash::hash_source_ip(&fb));
     if ha != hb {
         return Err(fail!("tcp:hash-depends-on-more-than-the-source-address", "workers {n}: {ha} vs {hb}\nA {}\nB {}", hex(&fa[..fa.len().min(80)]), hex(&fb[..fb.len().min(80)])));
     }
@@ -207,27 +208,40 @@ pub fn check_acct(c: &AcctCase, st: &mut Stats) -> Result<(), Fail> {
     if nd > 0 {
         st.class("with-drops");
     }
-    // every queued frame analysed exactly once, dropped ones never, on the worker the hasher names
-    let mut expect: BTreeMap<u64, (i64, usize)> = BTreeMap::new();
+    // every queued frame analysed exactly once, dropped ones never, and the worker that analysed it is a function of the frame's
+    // connection identity alone (observed on the pool itself: how the pool reduces a hash to an index is its own business)
+    let identity = |f: &[u8]| -> Option<String> {
+        crate::props::c15::decoded_endpoints(f).map(|(s, d, sp, dp)| match kind {
+            PoolKind::Tcp => format!("{s}"),
+            PoolKind::Http => {
+                let (a, b) = ((s, sp), (d, dp));
+                if a <= b { format!("{a:?}|{b:?}") } else { format!("{b:?}|{a:?}") }
+            }
+            PoolKind::Tls => format!("{s}:{sp}>{d}:{dp}"),
+        })
+    };
+    let mut expect: BTreeMap<u64, (i64, Option<String>)> = BTreeMap::new();
     for (f, q) in frames.iter().zip(&run.queued) {
-        let w = match kind {
-            PoolKind::Tcp => huginn_net_tcp::packet_hash::hash_source_ip(f) % workers,
-            PoolKind::Http => huginn_net_http::packet_hash::hash_flow(f, workers),
-            PoolKind::Tls => huginn_net_tls::packet_hash::hash_flow(f, workers).unwrap_or(usize::MAX),
-        };
-        let e = expect.entry(fnv64(f)).or_insert((0, w));
+        let e = expect.entry(fnv64(f)).or_insert_with(|| (0, identity(f)));
         if *q {
             e.0 += 1;
         }
     }
+    let mut worker_of: std::collections::HashMap<String, usize> = std::collections::HashMap::new();
     let mut seen: BTreeMap<u64, i64> = BTreeMap::new();
     for (w, h) in &run.analysed {
         *seen.entry(*h).or_insert(0) += 1;
         match expect.get(h) {
             None => return Err(fail!(format!("{:?}:analysed-a-frame-never-dispatched", kind), "hash {h:x}")),
-            Some((_, ew)) => {
-                if w != ew {
-                    return Err(fail!(format!("{:?}:analysed-on-another-worker-than-the-hasher-names", kind), "worker {w}, hasher says {ew} of {workers}"));
+            Some((_, id)) => {
+                if *w >= workers {
+                    return Err(fail!(format!("{:?}:analysed-by-a-worker-that-does-not-exist", kind), "worker {w} of {workers}"));
+                }
+                if let Some(id) = id {
+                    let first = *worker_of.entry(id.clone()).or_insert(*w);
+                    if first != *w {
+                        return Err(fail!(format!("{:?}:frames-of-one-connection-identity-analysed-on-different-workers", kind), "identity {id}: workers {first} and {w} of {workers}"));
+                    }
                 }
             }
         }
@@ -293,7 +307,7 @@ pub fn run(ctx: &Ctx) {
     ctx.shrink_iters.store(12, std::sync::atomic::Ordering::Relaxed);
     ctx.run_prop(
         "pool-accounting",
-        "proptest traces (1..6 connections repeated 1..6 times + junk frames; every frame distinct) x {TCP, HTTP, TLS} pool x workers 1..8 x queue size {0, 1, 2, 8, 1024} x batch 1..64 x timeout 1..10 ms x 1..4 concurrent dispatcher threads x seeded schedule perturbation (yield / sleep <= 300 us at the dispatch and worker hook points); oracle from the worker trace: multiset(analysed) == multiset(frames reported Queued), each on the worker the hasher names, Dropped never analysed, total_dropped == #Dropped, total_dispatched == #Queued or #Queued + #Dropped, per-worker drops consistent; non-trivial: >= 1 Dropped and >= 1 Queued with >= 2 dispatchers or >= 2 workers",
+        "proptest traces (1..6 connections repeated 1..6 times + junk frames; every frame distinct) x {TCP, HTTP, TLS} pool x workers 1..8 x queue size {0, 1, 2, 8, 1024} x batch 1..64 x timeout 1..10 ms x 1..4 concurrent dispatcher threads x seeded schedule perturbation (yield / sleep <= 300 us at the dispatch and worker hook points); oracle from the worker trace: multiset(analysed) == multiset(frames reported Queued), all frames of one connection identity (TCP: source address; HTTP: unordered endpoint pair; TLS: directed 4-tuple, as the analyzer's own decoder reads them) on one and the same existing worker, Dropped never analysed, total_dropped == #Dropped, total_dispatched == #Queued or #Queued + #Dropped, per-worker drops consistent; non-trivial: >= 1 Dropped and >= 1 Queued with >= 2 dispatchers or >= 2 workers",
         n,
         || {
             (trace::trace_case(6, false), any::<u8>(), 0u8..3, any::<u8>(), 0u8..5, any::<u8>(), any::<u8>(), any::<u8>(), any::<u64>(), proptest::collection::vec(proptest::collection::vec(any::<u8>(), 0..60), 0..4))
